@@ -1,0 +1,175 @@
+//go:build verif
+
+package cisco
+
+// Exports for the verification harness of property C20 (robustness of the
+// token-cursor functions). Added file only; not part of the normal build.
+
+import (
+	"fmt"
+	"sort"
+	"strings"
+
+	"github.com/hknutzen/Netspoc-Approve/go/pkg/deviceconf"
+)
+
+type VerifC20Descr struct {
+	Prefix   string
+	Template []string
+	Ignore   bool
+	Sub      []VerifC20Descr
+}
+
+// VerifC20CmdDescr returns the command descriptions of the parser.
+func (s *State) VerifC20CmdDescr() []VerifC20Descr {
+	var conv func(l []*cmdType) []VerifC20Descr
+	conv = func(l []*cmdType) []VerifC20Descr {
+		var r []VerifC20Descr
+		for _, d := range l {
+			r = append(r, VerifC20Descr{
+				Prefix:   d.prefix,
+				Template: append([]string{}, d.template...),
+				Ignore:   d.ignore,
+				Sub:      conv(d.sub),
+			})
+		}
+		return r
+	}
+	return conv(s.cmdDescr)
+}
+
+type VerifC20Cmd struct {
+	Found  bool
+	Idx    int
+	Orig   string
+	Parsed string
+	Name   string
+	Seq    int
+	Ref    []string
+}
+
+// VerifC20MatchCmd calls matchCmd with descriptions built from templates.
+func VerifC20MatchCmd(prefix string, words []string, templates [][]string,
+	ignore []bool) VerifC20Cmd {
+
+	var l []*cmdType
+	for i, t := range templates {
+		l = append(l, &cmdType{prefix: prefix, template: t, ignore: ignore[i]})
+	}
+	c := matchCmd(prefix, words, l)
+	if c == nil {
+		return VerifC20Cmd{}
+	}
+	idx := -1
+	for i, d := range l {
+		if d == c.typ {
+			idx = i
+		}
+	}
+	return VerifC20Cmd{true, idx, c.orig, c.parsed, c.name, c.seq, c.ref}
+}
+
+// VerifC20PostprocessACL calls postprocessASAACL / postprocessIOSACL.
+func VerifC20PostprocessACL(asa bool, orig, parsed string) (
+	string, string, []string) {
+
+	c := &cmd{typ: &cmdType{}, orig: orig, parsed: parsed}
+	if asa {
+		postprocessASAACL(c)
+	} else {
+		postprocessIOSACL(c)
+	}
+	return c.parsed, c.orig, c.ref
+}
+
+// VerifC20Parse calls ParseConfig and dumps the original lines of all
+// commands and subcommands, one string per toplevel command, sorted.
+// Returns nil config marker if ParseConfig returned no config.
+func (s *State) VerifC20Parse(data []byte, fName string) (
+	dump []string, hasConfig bool, err error) {
+
+	var c deviceconf.Config
+	c, err = s.parser.ParseConfig(data, fName)
+	cf, _ := c.(*Config)
+	if cf == nil {
+		return nil, false, err
+	}
+	for prefix, m := range cf.lookup {
+		for name, l := range m {
+			for i, c := range l {
+				var sub []string
+				for _, sc := range c.sub {
+					a := ""
+					if sc.append {
+						a = "+"
+					}
+					sub = append(sub, a+sc.orig)
+				}
+				a := ""
+				if c.append {
+					a = "+"
+				}
+				dump = append(dump, fmt.Sprintf("%s|%s|%d|%s%s|%s",
+					prefix, name, i, a, c.orig, strings.Join(sub, "|")))
+			}
+		}
+	}
+	sort.Strings(dump)
+	return dump, true, err
+}
+
+// VerifC20DstOfRoute calls dstOfRoute.
+func VerifC20DstOfRoute(prefix, orig, parsed string) (string, string) {
+	c := &cmd{typ: &cmdType{prefix: prefix}, orig: orig, parsed: parsed}
+	d := dstOfRoute(c)
+	return d.vrf, d.dst.String()
+}
+
+// VerifC20AlignVRFs calls alignVRFs with "ip route" commands on device
+// (aParsed) and from Netspoc (bParsed) and returns remaining routes of device.
+func VerifC20AlignVRFs(aParsed, bParsed []string) []string {
+	mk := func(l []string) *Config {
+		cf := &Config{lookup: make(objLookup)}
+		var cl []*cmd
+		for _, p := range l {
+			cl = append(cl, &cmd{typ: &cmdType{prefix: "ip route"},
+				orig: p, parsed: p})
+		}
+		if cl != nil {
+			cf.lookup["ip route"] = map[string][]*cmd{"": cl}
+		}
+		return cf
+	}
+	s := &State{a: mk(aParsed), b: mk(bParsed)}
+	s.alignVRFs()
+	var result []string
+	for _, c := range s.a.lookup["ip route"][""] {
+		result = append(result, c.parsed)
+	}
+	return result
+}
+
+// VerifC20PostprocessParsed calls postprocessParsed on commands with given
+// prefix, name and parsed text and returns the resulting parsed texts.
+func VerifC20PostprocessParsed(prefix string, names, parsed []string) []string {
+	lookup := make(objLookup)
+	m := make(map[string][]*cmd)
+	lookup[prefix] = m
+	var order []string
+	for i, p := range parsed {
+		n := names[i]
+		if _, found := m[n]; !found {
+			order = append(order, n)
+		}
+		m[n] = append(m[n], &cmd{typ: &cmdType{prefix: prefix}, name: n,
+			orig: p, parsed: p})
+	}
+	postprocessParsed(lookup)
+	var result []string
+	for _, n := range order {
+		for _, c := range lookup[prefix][n] {
+			result = append(result, n+"|"+c.parsed+"|"+strings.Join(c.ref, ","))
+		}
+	}
+	return result
+}
